@@ -219,6 +219,10 @@ var pureCallees = map[string]bool{
 	"(reflect.Value).Interface": true,
 }
 
+// PathEnv, when set, substitutes parameters of a helper by the caller's
+// argument values while rendering paths (virtual inlining, one level).
+var PathEnv map[*ssa.Parameter]ssa.Value
+
 // Path renders an SSA value as a flow-insensitive access path. Two values with
 // equal paths denote the same storage location or the same pure computation.
 // Loads are identified with the location they read (licensed by rule IMMUT for
@@ -235,6 +239,9 @@ func pathDepth(v ssa.Value, d int) string {
 	case nil:
 		return "<nil>"
 	case *ssa.Parameter:
+		if sub, ok := PathEnv[x]; ok && sub != nil {
+			return pathDepth(sub, d+1)
+		}
 		for i, p := range x.Parent().Params {
 			if p == x {
 				return fmt.Sprintf("param%d", i)
